@@ -237,7 +237,7 @@ impl Prop for C15 {
     }
 
     fn n_indices(&self, tier: Tier) -> u64 {
-        6000 * tier.scale()
+        12000 * tier.scale()
     }
 
     fn run_index(&self, idx: u64, seed: u64, _tier: Tier, rt: &mut Rt) -> Vec<Violation> {
